@@ -51,15 +51,26 @@ func GenReacquirePlan(t *rapid.T, profile string) *Plan {
 	return p
 }
 
-// MixReacquire returns gen, except that one case in six comes from GenReacquirePlan and one in six from
-// GenRestartInFlightPlan.
+// MixReacquire returns gen, except that one case in seven comes from each of GenReacquirePlan,
+// GenRestartInFlightPlan and GenStragglerPlan.
 func MixReacquire(profile string, gen func(*rapid.T) *Plan) func(*rapid.T) *Plan {
 	return func(t *rapid.T) *Plan {
-		switch rapid.IntRange(0, 5).Draw(t, "shape") {
+		k := rapid.IntRange(0, 6).Draw(t, "shape")
+		switch os.Getenv("VERIF_ONLY_SHAPE") { // (development aid)
+		case "reacquire":
+			k = 0
+		case "restart":
+			k = 1
+		case "straggler":
+			k = 2
+		}
+		switch k {
 		case 0:
 			return GenReacquirePlan(t, profile)
 		case 1:
 			return GenRestartInFlightPlan(t, profile)
+		case 2:
+			return GenStragglerPlan(t, profile)
 		}
 		return gen(t)
 	}
